@@ -1364,6 +1364,46 @@ def json_dumps(I, fv, args, kw):
     return I.opaque_str("json_dumps", B.vkey(I, args[0]) if not isinstance(args[0], VRef) else args[0].ref)
 
 
+def os_getenv(I, fv, a, k):
+    """the process environment is arbitrary: the variable is set (to an arbitrary string) or not (default / None)"""
+    used(I, "os.getenv: the environment is arbitrary (variable set to an arbitrary string, or unset)")
+    key = I.resolve(a[0])
+    default = a[1] if len(a) > 1 else k.get("default", NONE)
+    present = B.opaque_bool(I, "env_set", [key])
+    val = I.opaque_str("env", B.vkey(I, key))
+    return VUnion([(present.term(), val), (z3.Not(present.term()), default)])
+
+
+def hmac_new(I, fv, args, kw):
+    used(I, "hmac.new(key, msg, digestmod).hexdigest(): deterministic uninterpreted function of key, message and digest")
+    key = I.resolve(args[0])
+    msg = I.resolve(args[1]) if len(args) > 1 else I.resolve(kw.get("msg", VBytes([])))
+    dig = args[2] if len(args) > 2 else kw.get("digestmod")
+    dn = getattr(dig, "name", None) or getattr(dig, "qualname", None) or repr(dig)
+    return ext_obj(I, "hmac", key=key, msg=msg, dig=str(dn))
+
+
+def hmac_attr(I, ref, o, name):
+    from .interp import VBuiltin
+    return VBuiltin("hmacobj." + name, ref)
+
+
+def hmac_call(I, fv, args, kw):
+    o = I.hobj(fv.self_val)
+    name = fv.name.split(".")[-1]
+    if name in ("hexdigest", "digest"):
+        key, msg = o.meta["key"], o.meta["msg"]
+        if isinstance(key, VBytes) and isinstance(msg, VBytes) and key.is_concrete() and msg.is_concrete() and "sha256" in o.meta["dig"]:
+            import hashlib
+            import hmac as _hmac
+            d = _hmac.new(key.concrete(), msg.concrete(), hashlib.sha256)
+            return VStr(c=d.hexdigest()) if name == "hexdigest" else VBytes.lit(d.digest())
+        if name == "hexdigest":
+            return I.opaque_str("hmac_hex", o.meta["dig"], B.deep_key(I, key), B.deep_key(I, msg))
+        return B.opaque_bytes(I, "hmac_" + o.meta["dig"], [key, msg], 32)
+    raise Unsupported(f"hmac method {name}")
+
+
 def opaque_str_fn(tag):
     def f(I, fv, args, kw):
         return I.opaque_str(tag, *[B.deep_key(I, a) for a in args])
@@ -1386,9 +1426,10 @@ _LIB.update({"json.loads": json_loads, "json.dumps": json_dumps,
              "secrets.token_hex": lambda I, fv, a, k: VStr(t=z3.Const(fresh("token_hex"), B.STR if hasattr(B, "STR") else None)) if False else I.opaque_str("token_hex", fresh("r")),
              "secrets.token_urlsafe": lambda I, fv, a, k: I.opaque_str("token_urlsafe", fresh("r")),
              "urllib.parse.urlencode": opaque_str_fn("urlencode"), "urllib.parse.unquote_plus": opaque_str_fn("unquote_plus"),
-             "os.getenv": lambda I, fv, a, k: (a[1] if len(a) > 1 else NONE)})
+             "os.getenv": os_getenv, "hmac.new": hmac_new})
 _EXT_ATTR.update({"http_client": client_attr, "http_response": response_attr})
-_LIB_PREFIX.update({"http.": http_call, "httpresp.": response_call})
+_LIB_PREFIX.update({"http.": http_call, "httpresp.": response_call, "hmacobj.": hmac_call})
+_EXT_ATTR.update({"hmac": hmac_attr})
 _EXT_MAKE.update({"http_client": make_client})
 _EXT_CALL.update({"client_factory": client_factory_call})
 
